@@ -126,16 +126,18 @@ Qed.
 (* lia's preprocessing trips over boolean lambdas inside `filter`: abstract such lengths first *)
 Ltac absf :=
   repeat match goal with
-         | |- context [length (filter ?f ?l)] =>
-             let n := fresh "n" in let E := fresh "E" in remember (length (filter f l)) as n eqn:E; clear E
-         | H : context [length (filter ?f ?l)] |- _ =>
-             let n := fresh "n" in let E := fresh "E" in remember (length (filter f l)) as n eqn:E; clear E
+         | |- context [@length ?A (@filter ?B ?f ?l)] =>
+             let n := fresh "n" in let E := fresh "E" in
+             remember (@length A (@filter B f l)) as n eqn:E; clear E
+         | H : context [@length ?A (@filter ?B ?f ?l)] |- _ =>
+             let n := fresh "n" in let E := fresh "E" in
+             remember (@length A (@filter B f l)) as n eqn:E; clear E
          end.
 Ltac zlia :=
   repeat match goal with x := _ : state |- _ => subst x end;
   cbn [with_pc with_waiters with_woken with_idle with_closedc add_slot del_slot swap_slot bump_conn
        acquired woken waiters] in *;
-  absf; unfold task, key, conn in *; lia.
+  unfold task, key, conn in *; absf; lia.
 
 Lemma step_wake c s e s' :
   lph c = 0%Z -> (0 < limit c)%Z ->
